@@ -15,6 +15,9 @@ import (
 	"os"
 	"sort"
 	"strings"
+	"sync"
+	"sync/atomic"
+	"time"
 
 	clover "github.com/ostafen/clover/v2"
 	"github.com/ostafen/clover/v2/document"
@@ -69,6 +72,8 @@ func cmdAux(args []string) {
 		auxNorm(r, *n, emit, stats)
 	case "docpath":
 		auxDocPath(r, *n, emit, stats)
+	case "closerace":
+		auxCloseRace(r, *n, emit, stats)
 	default:
 		panic("unknown aux kind " + *kind)
 	}
@@ -1208,5 +1213,119 @@ func auxKeys(r *rand.Rand, n int, emit func(E), stats map[string]int) {
 		entry, _ := indexKey(name, field, doc.Get(field), id)
 		emit(E{"kind": "keys", "name": B(name), "field": B(field), "id": B(id), "entry": B(string(entry)), "be": b.Name, "phases": phases})
 		b.Destroy()
+	}
+}
+
+// ---------------------------------------------------------------- C20: Close while the handle is in use
+
+// auxCloseRace: several goroutines run operations in a loop - mostly operations that are built on other public
+// operations - while one goroutine closes the handle at some moment.  One line per trial: whether every call
+// returned (within 15 s), how many panicked, and whether a call succeeded after Close had returned.  CloverClose.tla
+// says what the protocol between Begin and Close guarantees; TraceAux!CloseRaceOk reads the line against it.
+func auxCloseRace(r *rand.Rand, n int, emit func(E), stats map[string]int) {
+	dir, _ := os.MkdirTemp(scratchBase(), "verif-closerace-")
+	defer os.RemoveAll(dir)
+	for it := 0; it < n; it++ {
+		be := []string{"bolt", "badger", "badgermem"}[it%3]
+		b, err := NewBackend(be, dir, nil)
+		if err != nil {
+			panic(err)
+		}
+		db := b.db
+		db.CreateCollection("c")
+		db.CreateIndex("c", "x")
+		for i := 0; i < 24; i++ {
+			doc := document.NewDocument()
+			doc.Set("x", int64(i%5))
+			db.InsertOne("c", doc)
+		}
+		G := 4 + r.Intn(5)
+		seeds := make([]int64, G)
+		for i := range seeds {
+			seeds[i] = r.Int63()
+		}
+		var wg sync.WaitGroup
+		var mu sync.Mutex
+		panics, okAfterClose := 0, 0
+		var closedAt int64 // set (to 1) once Close has returned
+		for g := 0; g < G; g++ {
+			wg.Add(1)
+			go func(g int) {
+				defer wg.Done()
+				rr := rand.New(rand.NewSource(seeds[g]))
+				for i := 0; i < 150; i++ {
+					func() {
+						defer func() {
+							if rec := recover(); rec != nil {
+								mu.Lock()
+								panics++
+								mu.Unlock()
+							}
+						}()
+						after := atomic.LoadInt64(&closedAt) == 1
+						var vals []interface{}
+						for k := 0; k < 30; k++ {
+							vals = append(vals, rr.Intn(7))
+						}
+						q := query.NewQuery("c").Where(query.Field("x").In(vals...).Or(query.Field("x").Gt(rr.Intn(5))))
+						var err error
+						switch rr.Intn(8) {
+						case 0:
+							_, err = db.Count(q)
+						case 1:
+							_, err = db.Exists(q)
+						case 2:
+							_, err = db.FindFirst(q)
+						case 3:
+							err = db.Update(q, map[string]interface{}{"y": int64(i)})
+						case 4:
+							doc := document.NewDocument()
+							doc.Set("x", int64(i))
+							err = db.Save("c", doc)
+						case 5:
+							err = db.ForEach(q, func(*document.Document) bool { return true })
+						default:
+							_, err = db.FindAll(q.Sort(query.SortOption{Field: "x", Direction: -1}))
+						}
+						if err == nil && after {
+							mu.Lock()
+							okAfterClose++
+							mu.Unlock()
+						}
+					}()
+				}
+			}(g)
+		}
+		time.Sleep(time.Duration(r.Intn(3000)) * time.Microsecond)
+		closed := make(chan struct{})
+		go func() {
+			defer func() { recover(); close(closed) }()
+			db.Close()
+			atomic.StoreInt64(&closedAt, 1)
+		}()
+		done := make(chan struct{})
+		go func() { wg.Wait(); close(done) }()
+		blocked := 0
+		select {
+		case <-done:
+		case <-time.After(15 * time.Second):
+			blocked = 1
+		}
+		select {
+		case <-closed:
+		case <-time.After(15 * time.Second):
+			blocked = 1
+		}
+		mu.Lock()
+		emit(E{"kind": "closerace", "be": be, "goroutines": G, "blocked": blocked, "panics": panics, "okafterclose": okAfterClose})
+		mu.Unlock()
+		stats[fmt.Sprintf("closerace/%s/blocked=%d", be, blocked)]++
+		if blocked == 1 {
+			break // the goroutines of this trial are stuck for good: the process is left to the operating system
+		}
+		b.open = false
+		if b.dir != "" {
+			os.RemoveAll(b.dir)
+		}
 	}
 }
